@@ -511,20 +511,17 @@ type refAnswer struct {
 // of the first candidate). One constant-offset period at a time.
 func refNext(rs *refSched, loc *time.Location, t time.Time) refAnswer {
 	cur := t.Unix() + 1 // Unix() floors: the first whole second strictly after t
-	first := time.Unix(cur, 0).In(loc)
-	_, off0 := first.Zone()
+	off0 := offsetAt(loc, cur)
 	y, _, _ := civil(floorDiv(cur+int64(off0), 86400))
 	ans := refAnswer{first: cur, limitLoc: daysFromCivil(y+6, 1, 1) * 86400}
 	for guard := 0; guard < 5000; guard++ {
-		tt := time.Unix(cur, 0).In(loc)
-		_, offI := tt.Zone()
+		offI, pe, inf := period(loc, cur)
 		off := int64(offI)
-		_, pe := tt.ZoneBounds()
 		ans.periods++
 		lo := cur + off
 		hi := int64(math.MaxInt64)
-		if !pe.IsZero() {
-			hi = pe.Unix() + off
+		if !inf {
+			hi = pe + off
 		}
 		if hi > ans.limitLoc {
 			hi = ans.limitLoc
@@ -537,10 +534,10 @@ func refNext(rs *refSched, loc *time.Location, t time.Time) refAnswer {
 		}
 		// stop once the periods start well past the limit (a later period may
 		// reach back below the limit only by a backward shift, at most ~1 day)
-		if pe.IsZero() || pe.Unix()+off > ans.limitLoc+3*86400 {
+		if inf || pe+off > ans.limitLoc+3*86400 {
 			return ans
 		}
-		cur = pe.Unix()
+		cur = pe
 	}
 	return ans
 }
